@@ -176,7 +176,13 @@ func probe(b, other *o4.Bridge, accepted []byte, rng *mrand.Rand, c *conn) bool 
 	// poll the log after every step
 	seenDl := 0
 	flushDl := func() {
-		for _, d := range raw.DeadlineLog()[seenDl:] {
+		for i, d := range raw.DeadlineLog()[seenDl:] {
+			if seenDl == 0 && i == 0 {
+				// the accept time as the code saw it: WrapConn reads the clock and arms the handshake deadline before it
+				// touches the connection, so the wall clock at that first Set*Deadline call is the tightest observable
+				// stand-in for it (the goroutine that calls WrapConn may be scheduled late on a loaded machine)
+				t0 = d.When
+			}
 			seenDl++
 			dt := int(d.At.Sub(t0) / time.Millisecond)
 			if d.Zero {
